@@ -1,0 +1,45 @@
+//go:build verif
+
+package utils
+
+// Contracts checked by /verif/govc (comment-only file; build tag verif).
+
+// ---------------------------------------------------------------------------
+// C16 — weight rebalancing, integer part.  The float32 arithmetic of the last
+// loop of RebalanceWeight is outside the reach of these contracts.
+
+//@ func gcd
+//@   props C16
+//@   requires a > 0 && b >= 0
+//@   modifies nothing
+//@   ensures  pos:   result > 0
+//@   ensures  le:    b > 0 ==> result <= b
+//@   ensures  lea:   b == 0 ==> result == a
+//@   loop 1 invariant step: (a == old(a) && b == old(b)) || (0 < a && a <= old(b) && 0 <= b && b < a)
+//@   loop 1 invariant pos:  a > 0 && b >= 0
+//@ end
+
+//@ func lcm
+//@   props C16
+//@   requires a > 0 && b > 0
+//@   modifies nothing
+//@   ensures  pos: result > 0
+//@   safe
+//@ end
+
+// RebalanceWeight never divides by zero, and leaves every weight untouched
+// when no group has replicas or no group has weight.
+//@ func RebalanceWeight
+//@   props C16
+//@   requires wf: forall k int :: 0 <= k && k < len(clusters) ==> clusters[k] != nil && clusters[k].Length >= 0 && clusters[k].Weight >= 0
+//@   ensures noreps: (forall k int :: 0 <= k && k < len(clusters) ==> clusters[k].Length == 0) ==>
+//@       forall k int :: 0 <= k && k < len(clusters) ==> clusters[k].Weight == old(clusters[k].Weight)
+//@   safe
+//@   loop 1 invariant zero: (forall k int :: 0 <= k && k < $idx(1) ==> clusters[k].Length == 0) ==> lcmCount == 0
+//@   loop 1 invariant lcm:  lcmCount >= 0 && 0 <= $idx(1) && $idx(1) <= len(clusters)
+//@   loop 1 invariant keep: forall k int :: 0 <= k && k < len(clusters) ==> clusters[k] == old(clusters[k]) && clusters[k].Weight == old(clusters[k].Weight) && clusters[k].Length == old(clusters[k].Length)
+//@   loop 2 invariant gcdw: gcdClusterWeight >= 0 && lcmCount > 0 && 0 <= $idx(2) && $idx(2) <= len(clusters)
+//@   loop 2 invariant keep: forall k int :: 0 <= k && k < len(clusters) ==> clusters[k] == old(clusters[k]) && clusters[k].Weight == old(clusters[k].Weight) && clusters[k].Length == old(clusters[k].Length)
+//@   loop 3 invariant rng:  0 <= $idx(3) && $idx(3) <= len(clusters)
+//@   loop 3 invariant ptrs: forall k int :: 0 <= k && k < len(clusters) ==> clusters[k] == old(clusters[k]) && clusters[k].Length == old(clusters[k].Length)
+//@ end
